@@ -9,10 +9,12 @@ pub const DEFAULT_PACKET_SIZE: usize = 1024;
 impl UdpSocket {
     pub uninterp spec fn sent(&self) -> Seq<Seq<u8>>;
     pub uninterp spec fn recvd(&self) -> nat;
+    /// datagrams the server will still send before going silent (the property's "finite reply script")
+    pub uninterp spec fn pending(&self) -> nat;
     #[verifier::external_body]
     pub fn send(&mut self, data: &[u8]) -> (r: GDResult<()>)
         ensures
-            final(self).recvd() == old(self).recvd(),
+            final(self).recvd() == old(self).recvd(), final(self).pending() == old(self).pending(),
             r is Ok ==> final(self).sent() == old(self).sent().push(data@),
             r is Err ==> final(self).sent() == old(self).sent() && r->Err_0.kind == PacketSend,
     { unimplemented!() }
@@ -20,9 +22,10 @@ impl UdpSocket {
     pub fn receive(&mut self, size: Option<usize>) -> (r: GDResult<Vec<u8>>)
         ensures
             final(self).sent() == old(self).sent(),
-            r is Ok ==> final(self).recvd() == old(self).recvd() + 1
+            r is Ok ==> final(self).recvd() == old(self).recvd() + 1 && final(self).pending() + 1 == old(self).pending()
                      && r->Ok_0@.len() <= (if size is Some { size->Some_0 } else { DEFAULT_PACKET_SIZE }),
-            r is Err ==> final(self).recvd() == old(self).recvd() && r->Err_0.kind == PacketReceive,
+            r is Err ==> final(self).recvd() == old(self).recvd() && final(self).pending() == old(self).pending()
+                      && r->Err_0.kind == PacketReceive,
     { unimplemented!() }
 }
 #[verifier::external_body]
@@ -30,10 +33,12 @@ pub struct TcpSocket { _p: core::marker::PhantomData<()> }
 impl TcpSocket {
     pub uninterp spec fn sent(&self) -> Seq<Seq<u8>>;
     pub uninterp spec fn recvd(&self) -> nat;
+    /// datagrams the server will still send before going silent (the property's "finite reply script")
+    pub uninterp spec fn pending(&self) -> nat;
     #[verifier::external_body]
     pub fn send(&mut self, data: &[u8]) -> (r: GDResult<()>)
         ensures
-            final(self).recvd() == old(self).recvd(),
+            final(self).recvd() == old(self).recvd(), final(self).pending() == old(self).pending(),
             r is Ok ==> final(self).sent() == old(self).sent().push(data@),
             r is Err ==> final(self).sent() == old(self).sent() && r->Err_0.kind == PacketSend,
     { unimplemented!() }
@@ -42,7 +47,8 @@ impl TcpSocket {
     pub fn receive(&mut self, size: Option<usize>) -> (r: GDResult<Vec<u8>>)
         ensures
             final(self).sent() == old(self).sent(),
-            r is Ok ==> final(self).recvd() == old(self).recvd() + 1 && r->Ok_0@.len() <= isize::MAX,
-            r is Err ==> final(self).recvd() == old(self).recvd() && r->Err_0.kind == PacketReceive,
+            r is Ok ==> final(self).recvd() == old(self).recvd() + 1 && final(self).pending() + 1 == old(self).pending(),
+            r is Err ==> final(self).recvd() == old(self).recvd() && final(self).pending() == old(self).pending()
+                      && r->Err_0.kind == PacketReceive,
     { unimplemented!() }
 }
